@@ -304,3 +304,7 @@ mod tests {
         assert!(result.is_err(), "token with unknown kid should be rejected");
     }
 }
+
+#[cfg(kani)]
+#[path = "/verif/kani/snap_control/token_verifier.rs"]
+mod verif_token_verifier;
